@@ -14,21 +14,17 @@ CONSTANTS
   Known <- Known3
   Keys = {1}
   Miners = {1}
-  MaxBlocks = 5
+  MaxBlocks = 3
   MaxSteps = 99
   TsDeltas = {1}
   TxLevel = 0
-  HdrMuts = {"badpow", "badtarget", "ts_equal", "ts_before", "height_plus", "cb_height", "evidence", "merkle", "orphan", "no_reward", "two_rewards", "cb_blank", "cb_realref", "cb_bigdata", "future"}
+  HdrMuts = {"badtarget", "height_plus", "ts_equal", "badpow"}
   TxMuts = {}
   RewardDeltas <- RD2
   UseNoValidation = FALSE
   EmitHist = FALSE
   GenesisTarget <- Target1
 VIEW View
-INVARIANT I_C02_Cumulative
 INVARIANT I_C03_Replay
-INVARIANT I_C04_Head
 INVARIANT I_C04_Tips
-INVARIANT I_C04_Index
-PROPERTY A_C04_HeadOnlyUp
 INVARIANT I_C18
